@@ -28,6 +28,7 @@
 -/
 import QKV.Lemmas.Sched
 import QKV.Lemmas.Rnd
+import QKV.Lemmas.Pow2
 namespace QKV.Props.C07
 open QKV QKV.QNoise QKV.Sched
 
@@ -107,6 +108,119 @@ theorem C07_mix_storage_noste_partial (rd : Rnd) (s q v : ℚ)
 
 example (v : ℚ) : Rnd.exact.r32 (Rnd.exact.r64 (1 - v)) = Rnd.exact.r32 (1 - Rnd.exact.r32 v) := rfl
 
+/-! ## 1b. quantized_relu in full: `x_u`, `xq`, the `relu_upper_bound` pass, then the mix
+
+  (strengthening round, seed C07-6)  `reluNoise` = the whole `quantized_relu.__call__` for every
+  `bits`, `integer`, leaky slope `2^-k`, `relu_upper_bound` (on or off the quantization grid) and
+  `is_quantized_clip`. -/
+
+/-- the whole call interpolates between its unquantized activation and its quantized value -/
+theorem C07_relu_interpolates (t : Tie) (c : ReluCfg) (f : ℚ) (useSte : Bool) (x : ℚ) :
+    reluNoise t c f useSte x = c.act x + f * (qreluU t c x - c.act x) :=
+  C07_mix _ _ _ _
+
+/-- `f = 0` returns the unquantized activation, `f = 1` the fully quantized value (which respects
+    `relu_upper_bound`) -/
+theorem C07_relu_f0_f1 (t : Tie) (c : ReluCfg) (useSte : Bool) (x : ℚ) :
+    reluNoise t c 0 useSte x = c.act x ∧ reluNoise t c 1 useSte x = qreluU t c x :=
+  ⟨(C07_f0 _ _ _).1, (C07_f1 _ _ _).1⟩
+
+/-- the clause the harness judges on the real outputs: `out(f) = out(0) + f·(out(1) − out(0))` -/
+theorem C07_relu_affine_in_f (t : Tie) (c : ReluCfg) (f : ℚ) (useSte : Bool) (x : ℚ) :
+    reluNoise t c f useSte x =
+      reluNoise t c 0 useSte x + f * (reluNoise t c 1 useSte x - reluNoise t c 0 useSte x) := by
+  rw [(C07_relu_f0_f1 t c useSte x).1, (C07_relu_f0_f1 t c useSte x).2]
+  exact C07_relu_interpolates t c f useSte x
+
+/-- with an active `relu_upper_bound` (not `is_quantized_clip`) the unquantized activation is
+    below the bound … -/
+theorem C07_relu_act_le_bound (c : ReluCfg) (ub : ℚ) (hc : c.clamp = some ub) (h0 : 0 ≤ ub) (x : ℚ) :
+    c.act x ≤ ub := by
+  unfold ReluCfg.clamp at hc
+  cases hq : c.qclip
+  · rw [hq] at hc
+    cases hu : c.upper with
+    | none => rw [hu] at hc; simp at hc
+    | some u =>
+      rw [hu] at hc
+      by_cases h : u = 0
+      · simp [h] at hc
+      · simp only [Bool.false_eq_true, if_false, h] at hc
+        cases hc
+        simp only [ReluCfg.act, hq, Bool.false_eq_true, if_false, hu]
+        split
+        · rename_i hx
+          unfold ReluCfg.lrelu
+          split
+          · rename_i hneg
+            have hs : 0 ≤ c.slope := by
+              unfold ReluCfg.slope
+              cases c.slopeLog with
+              | none => exact le_refl _
+              | some k => exact le_of_lt (QKV.pow2_pos _)
+            nlinarith
+          · exact hx
+        · exact le_refl _
+  · rw [hq] at hc; simp at hc
+
+/-- … so for `f ∈ [0,1]` the mixed output already respects the bound: no clip of the result is
+    needed (and none is applied by the code) -/
+theorem C07_relu_bounded (t : Tie) (c : ReluCfg) (ub f : ℚ) (useSte : Bool) (x : ℚ)
+    (hc : c.clamp = some ub) (hub : 0 ≤ ub) (h0 : 0 ≤ f) (h1 : f ≤ 1) :
+    reluNoise t c f useSte x ≤ ub := by
+  have hs := C07_relu_act_le_bound c ub hc hub x
+  have hq : qreluU t c x ≤ ub := by
+    unfold qreluU
+    rw [hc]
+    simp only [clampTo]
+    split
+    · assumption
+    · exact le_refl _
+  have := (C07_mix_between (c.act x) (qreluU t c x) f useSte h0 h1).2
+  exact le_trans this (max_le hs hq)
+
+/-- where clipping the mixed result instead would give the same value: at `f = 0`, at `f = 1`,
+    and wherever the bound does not cut the quantized value -/
+theorem C07_relu_clamp_order_agree (t : Tie) (c : ReluCfg) (ub f : ℚ) (useSte : Bool) (x : ℚ)
+    (hc : c.clamp = some ub) (hub : 0 ≤ ub) (h0 : 0 ≤ f) (h1 : f ≤ 1)
+    (h : f = 0 ∨ f = 1 ∨ qrelu t c x ≤ ub) :
+    reluNoiseClampAfter t c f useSte x = reluNoise t c f useSte x := by
+  have hs := C07_relu_act_le_bound c ub hc hub x
+  unfold reluNoiseClampAfter reluNoise qreluU
+  rw [hc]
+  rcases h with h | h | h
+  · subst h
+    rw [(C07_f0 _ _ _).1, (C07_f0 _ _ _).1]
+    simp [clampTo, hs]
+  · subst h
+    rw [(C07_f1 _ _ _).1, (C07_f1 _ _ _).1]
+  · have hq : clampTo (some ub) (qrelu t c x) = qrelu t c x := by simp [clampTo, h]
+    rw [hq]
+    have := (C07_mix_between (c.act x) (qrelu t c x) f useSte h0 h1).2
+    have hle : mix (c.act x) (qrelu t c x) f useSte ≤ ub := le_trans this (max_le hs h)
+    simp [clampTo, hle]
+
+/-- the order matters: `quantized_relu(2, 2, relu_upper_bound=2.6, is_quantized_clip=False)` (the
+    bound is the float32 nearest 2.6, off the grid of step 1), `x = 2.5625`, `f = 1/2`: the call
+    gives the interpolation `x_u + f·(xq − x_u)` with `xq = min(3, ub) = ub`, whereas clipping the
+    mixed result gives the bound itself — which is not between-by-`f` its own `f = 0` and `f = 1`
+    values (seed C07-6). -/
+theorem C07_relu_clamp_after_mix_counterexample :
+    let ub : ℚ := 5452595 / 2097152
+    let c : ReluCfg := { bits := 2, integer := 2, slopeLog := none, upper := some ub, qclip := false }
+    c.act (41/16) = 41/16 ∧ qrelu .even c (41/16) = 3 ∧ qreluU .even c (41/16) = ub ∧
+    reluNoise .even c (1/2) true (41/16) = (41/16 + ub) / 2 ∧
+    reluNoiseClampAfter .even c (1/2) true (41/16) = ub ∧
+    reluNoiseClampAfter .even c (1/2) true (41/16) ≠
+      reluNoiseClampAfter .even c 0 true (41/16) +
+        (1/2) * (reluNoiseClampAfter .even c 1 true (41/16) - reluNoiseClampAfter .even c 0 true (41/16)) := by
+  refine ⟨by decide +kernel, by decide +kernel, by decide +kernel, by decide +kernel, by decide +kernel,
+    by decide +kernel⟩
+
+/-- non-vacuity of the hypotheses of `C07_relu_bounded` / `C07_relu_clamp_order_agree` -/
+example : ({ bits := 4, integer := 1, slopeLog := some 2, upper := some (29/20), qclip := false } : ReluCfg).clamp
+    = some (29/20) := by decide +kernel
+
 /-! ## 2. storage of the factor: python float vs tf.Variable, build / update in any order -/
 
 /-- For every operation list (explicit `build(use_variables=…)`, `update_qnoise_factor` with a
@@ -163,6 +277,97 @@ theorem C07_update_from_variable_fixed_witness :
       (QState.run Rnd.exact s [.updateFromVar (1/2), .call]).eff Rnd.exact = 1/2 := by
   simp [QState.step, QState.updateFromVar, QState.eff, Store.asF, Rnd.exact, QState.run, QState.call,
     QState.build]
+
+/-! ## 2b. several quantizers and caller-owned variables: the factor is private state
+
+  (strengthening round, seed C07-4)  `Sys` = any number of quantizer objects and any number of
+  caller-owned float32 `tf.Variable`s; an interleaved history mixes single-quantizer operations,
+  `q_i.update_qnoise_factor(w_k)`, `q_i.update_qnoise_factor(q_j.qnoise_factor)` and the caller's
+  own `w_k.assign(v)`.  The update API copies the CURRENT value of a variable it is handed. -/
+
+/-- frame, one operation: an update (or build / call / flip) of another quantizer, or an assignment
+    to a caller's variable, leaves quantizer `b` exactly as it was -/
+theorem C07_multi_frame_step (rd : Rnd) (s : Sys) (m : MOp) (b : ℕ) (h : m.target ≠ some b) :
+    (s.step rd m).q b = s.q b :=
+  sys_step_frame rd s m b h
+
+/-- frame, every interleaved history: whatever is done to OTHER quantizers — including updating
+    them from the very variable `b` was updated from — and whatever the caller assigns to its
+    variables, quantizer `b` keeps its storage, its value, and the factor its next call uses -/
+theorem C07_multi_frame (rd : Rnd) (s : Sys) (b : ℕ) (ms : List MOp)
+    (h : ∀ m ∈ ms, m.target ≠ some b) :
+    (Sys.run rd s ms).q b = s.q b ∧ ((Sys.run rd s ms).q b).eff rd = (s.q b).eff rd := by
+  have := sys_run_frame rd b ms s h
+  exact ⟨this, by rw [this]⟩
+
+/-- qkeras never writes a caller's variable: over every history its value is what the caller's own
+    last `assign` made it (here: unchanged when the history has no `assign` to it) -/
+theorem C07_multi_caller_variable_untouched (rd : Rnd) (s : Sys) (k : ℕ) (ms : List MOp)
+    (h : ∀ m ∈ ms, m.assigns ≠ some k) : (Sys.run rd s ms).w k = s.w k :=
+  sys_run_w rd k ms s h
+
+/-- an interleaved history acts on quantizer `b` exactly like `b`'s own history (the operations
+    addressed to `b`, a source variable being read at the moment of the update) -/
+theorem C07_multi_local_history (rd : Rnd) (s : Sys) (b : ℕ) (ms : List MOp) :
+    (Sys.run rd s ms).q b = QState.run rd (s.q b) (proj rd b s ms) :=
+  sys_run_proj rd b ms s
+
+/-- two interleavings (of any two systems) that contain the same history of `b` leave `b` in the
+    same state: what surrounds `b`'s own operations is irrelevant -/
+theorem C07_multi_interleaving_independent (rd : Rnd) (s1 s2 : Sys) (b : ℕ) (ms1 ms2 : List MOp)
+    (h0 : s1.q b = s2.q b) (hp : proj rd b s1 ms1 = proj rd b s2 ms2) :
+    (Sys.run rd s1 ms1).q b = (Sys.run rd s2 ms2).q b := by
+  rw [sys_run_proj, sys_run_proj, h0, hp]
+
+/-- the storage theorem for one quantizer among many: after every interleaved history the factor
+    the next call of `b` uses is float32 of the last value written TO `b` (a number, or the value
+    a source variable had when `b` was updated from it), or `b`'s initial factor -/
+theorem C07_multi_storage_invariant (rd : Rnd) (hid : ∀ x, rd.r32 (rd.r32 x) = rd.r32 x)
+    (s : Sys) (hs : s.WF rd) (b : ℕ) (ms : List MOp) (hms : ∀ m ∈ ms, m.WF rd) :
+    ((Sys.run rd s ms).q b).eff rd =
+      match lastWrite (proj rd b s ms) with
+      | some v => rd.r32 v
+      | none => (s.q b).eff rd := by
+  rw [sys_run_proj]
+  exact storage_invariant rd _ _ (proj_wf rd hid b ms s hs hms)
+
+/-- one source variable pushed to two quantizers (`a` may even be `b`), then ANY history that does
+    not address `b` — updates of `a`, further updates from the same variable, assignments to it:
+    `b` still uses the value the variable had when `b` was updated -/
+theorem C07_multi_shared_source (rd : Rnd) (s : Sys) (a b k : ℕ) (ms : List MOp)
+    (hw : rd.r32 (s.w k) = s.w k) (h : ∀ m ∈ ms, m.target ≠ some b) :
+    ((Sys.run rd s (.updateFromCaller a k :: .updateFromCaller b k :: ms)).q b).eff rd = s.w k := by
+  simp only [Sys.run]
+  rw [(C07_multi_frame rd _ b ms h).2, sys_step_q]
+  simp only [MOp.resolve, if_true]
+  have hk : (s.step rd (.updateFromCaller a k)).w k = s.w k :=
+    sys_step_w rd s _ k (by simp [MOp.assigns])
+  rw [hk]
+  exact (C07_update_from_variable rd _ (s.w k) hw).2
+
+/-- non-vacuity: a well-formed system and history (exact and IEEE readings are idempotent) -/
+example : (⟨fun _ => ⟨.py (1/3), false, true⟩, fun _ => 1/4⟩ : Sys).WF Rnd.exact ∧
+    (∀ m ∈ [MOp.updateFromCaller 0 0, .local 1 (.update (1/3)), .assign 0 (1/2), .updateFromQuant 1 0],
+      m.WF Rnd.exact) ∧ (∀ x, Rnd.exact.r32 (Rnd.exact.r32 x) = Rnd.exact.r32 x) := by
+  refine ⟨⟨fun _ => rfl, fun i v h => rfl⟩, ?_, fun _ => rfl⟩
+  intro m hm
+  simp only [List.mem_cons, List.mem_nil_iff, or_false] at hm
+  rcases hm with h | h | h | h <;> subst h <;> simp [MOp.WF, Op.WF]
+
+/-- the history of seed C07-4 in the model: one caller variable (1/4) pushed to two built quantizers
+    in python storage (and, second system, in Variable storage), then `q0.update(1)`, then the
+    caller assigns 1/2: quantizer 1 still uses 1/4, quantizer 0 uses 1, the variable holds 1/2 -/
+theorem C07_multi_shared_source_witness :
+    let h : List MOp := [.updateFromCaller 0 0, .updateFromCaller 1 0, .local 0 (.update 1),
+                         .assign 0 (1/2), .local 1 .call]
+    let sp : Sys := ⟨fun _ => ⟨.py 1, true, false⟩, fun _ => 1/4⟩
+    let sv : Sys := ⟨fun _ => ⟨.var 1, true, true⟩, fun _ => 1/4⟩
+    (((Sys.run Rnd.exact sp h).q 1).eff Rnd.exact = 1/4 ∧ ((Sys.run Rnd.exact sp h).q 0).eff Rnd.exact = 1
+      ∧ (Sys.run Rnd.exact sp h).w 0 = 1/2) ∧
+    (((Sys.run Rnd.exact sv h).q 1).eff Rnd.exact = 1/4 ∧ ((Sys.run Rnd.exact sv h).q 0).eff Rnd.exact = 1
+      ∧ (Sys.run Rnd.exact sv h).w 0 = 1/2) := by
+  simp [Sys.run, Sys.step, setAt, QState.step, QState.updateFromVar, QState.update, QState.call,
+    QState.eff, Store.asF, Rnd.exact]
 
 /-! ## 3. calculate_qnoise_factor -/
 
